@@ -23,6 +23,7 @@ EXPLANATION = (
     ' (D4 as built) the amplitude vector is abstracted as interval events (ones, slice stores, template slices, flips) and its final arrangement is compared, for every window class (interior / first / last / single) and every (nswin, overlap, window length) in a small box, with: rising ramp on the first `overlap` samples iff the window has a predecessor, mirrored ramp on the last `overlap` samples iff it has a successor, one elsewhere.'
     ' (D1 as built) the generator is solved into closed forms over the iteration number (local cursor, local counter, mirrored self.iw); the position of a generator must be carried by locals of its frame - bounds computed from an attribute that other generators reset are reported (cursor-local).'
     " (D1 array form) a generator that iterates a table of bounds computed once (first = arange(a, b, s), last = minimum(first + nswin, ns)) is modelled by its closed form; the number of rows is compared with the generator's definition 1 + max(0, ceil((ns - nswin) / step)) on a box of (ns, nswin, overlap)."
+    ' (array form as built) the window table may be two vectors iterated with zip.'
 )
 ASSUMPTIONS = [
     "ns, nswin, overlap are integers with 0 <= overlap < nswin (the property's precondition)",
